@@ -265,20 +265,24 @@ func (n *Node) DataType() *ua.ExpandedNodeID {
 		return ua.NewTwoByteExpandedNodeID(0)
 	}
 	v := n.attr[ua.AttributeIDDataType]
-	if v == nil || v.Value.Value() == nil {
-		// if we have a type definition, return that?
-		for i := range n.refs {
-			r := n.refs[i]
-			if r.ReferenceTypeID == nil {
-				log.Printf("reftypeid was nil!")
-			}
-			if r.ReferenceTypeID.IntID() == id.HasTypeDefinition && r.IsForward {
-				return r.NodeID
-			}
+	if v != nil && v.Value != nil {
+		// the attribute is writable by clients so it may hold a value of any type
+		if dt, ok := v.Value.Value().(*ua.ExpandedNodeID); ok && dt != nil {
+			return dt
 		}
-		return ua.NewTwoByteExpandedNodeID(0)
 	}
-	return v.Value.Value().(*ua.ExpandedNodeID)
+	// if we have a type definition, return that?
+	for i := range n.refs {
+		r := n.refs[i]
+		if r.ReferenceTypeID == nil {
+			log.Printf("reftypeid was nil!")
+			continue
+		}
+		if r.ReferenceTypeID.IntID() == id.HasTypeDefinition && r.IsForward {
+			return r.NodeID
+		}
+	}
+	return ua.NewTwoByteExpandedNodeID(0)
 }
 
 func (n *Node) SetNodeClass(nc ua.NodeClass) {
@@ -365,6 +369,9 @@ func (n Node) Access(flag ua.AccessLevelType) bool {
 
 	access, err := n.Attribute(ua.AttributeIDUserAccessLevel)
 	if err == nil { // if we have a user access level, we need to check it.
+		if access.Value == nil || access.Value.Value == nil {
+			return false
+		}
 		val0 := access.Value.Value.Value()
 		val, ok := val0.(uint8)
 		if !ok {
@@ -376,6 +383,9 @@ func (n Node) Access(flag ua.AccessLevelType) bool {
 	}
 	access, err = n.Attribute(ua.AttributeIDAccessLevel)
 	if err == nil { // if we have an access level, we need to check it.
+		if access.Value == nil || access.Value.Value == nil {
+			return false
+		}
 		val0 := access.Value.Value.Value()
 		val, ok := val0.(uint8)
 		if !ok {
